@@ -77,6 +77,55 @@ def judge_twin(base, s, e, nlook):
     return None
 
 
+def judge_twin_after_failure(base, fail_on):
+    """ONE parser: first a window of X / X_nocancel / both whose enum-valued START word is not a declared member (decoding it
+    fails; the caller catches that), then an ordinary window of X and one of X_nocancel: both must render as on a fresh parser."""
+    nc = base + '_nocancel'
+    fail_on, _, how = fail_on.partition(':')
+    en = {k: v for k, v in D.enums(base, 'se').items() if k[0] == 's'}
+    if not en and how != 'utf8':
+        return 'skipped'
+    s, e = D.in_domain(base, 'se', (0x1111, 0x2222, 0x3333, 0x4444), (0, 0x55, 0x66, 0x77), 1)
+    bad_s = list(s)
+    if how != 'utf8':
+        for k, spec in en.items():
+            v = 0x7fff3
+            while v in spec['values']:
+                v += 1
+            bad_s[int(k[1])] = v
+    p = TracesParser(E.codes(), {}, {})
+    ts = [0]
+
+    def feed(name, sw, ew, inner=()):
+        out = []
+        for ev in (E.ev(name, 1, sw),) + tuple(inner) + (E.ev(name, 2, ew),):
+            ts[0] += 1
+            try:
+                r = p.feed(ev._replace(timestamp=ts[0]))
+            except Exception:
+                if not inner:
+                    raise
+                continue
+            if r is not None and r.ktraces[0].eventid == E.n2i(name):
+                out.append(str(r))
+        return out
+    # how == 'utf8': the window holds a path record whose bytes are not text (decoding the path fails wherever it is read)
+    inner = (E.ev('VFS_LOOKUP', 3, data=(0x99).to_bytes(8, 'little') + b'\x82\xff\xfe'.ljust(24, b'\0')),) if how == 'utf8' else ()
+    for nm in {'base': (base,), 'nocancel': (nc,), 'both': (base, nc)}[fail_on]:
+        try:
+            feed(nm, tuple(bad_s), e, inner)
+        except Exception:
+            pass
+    try:
+        a, b = feed(base, s, e), feed(nc, s, e)
+    except Exception as ex:
+        return ('twin-raised-after-an-undecodable-window:' + type(ex).__name__, {'error': repr(ex)[:200]})
+    fa, fb = render(base, s, e, 0), render(nc, s, e, 0)
+    if a != fa or b != fb:
+        return ('twin-rendering-changes-after-an-undecodable-window', {'base': a, 'nocancel': b, 'fresh_base': fa, 'fresh_nocancel': fb, 'failed_first': fail_on})
+    return None
+
+
 def judge_facade_twins(base, order):
     """one PyKdebugParser prints X and X_nocancel with byte-identical START/END tuples (order: which comes first)."""
     import io
@@ -122,7 +171,7 @@ class C17(Check):
             'de-duplication of ids); per-family handler dicts pairwise disjoint; every *_nocancel entry has its base registered; '
             'for every twin pair the product of START word domains (as C09) x 3 END tuples x {0,2} lookups: renderings equal up '
             'to the _nocancel suffix of the call name (the lookups\' paths contain the call\'s own name; every code of the table whose name starts with the base name, e.g. BSC_pread_extended_info, is nested in the window); and both twins printed twice by ONE PyKdebugParser object with byte-identical '
-            'tuples, in both orders, through formatted_traces. Distinct by construction; non-trivial = twin comparison runs and table '
+            'tuples, in both orders, through formatted_traces; and on ONE parser after a window of X / X_nocancel / both that cannot be decoded (enum word outside its members; path bytes that are not text): both twins render as on a fresh parser. Distinct by construction; non-trivial = twin comparison runs and table '
             'entries of decoders with a _nocancel twin.')
     assumptions = ('the bundled table is read from pykdebugparser/trace.codes of the tree under test',)
 
@@ -132,7 +181,10 @@ class C17(Check):
 
     def shards(self):
         h = registered()
-        twins = sorted(n[:-len('_nocancel')] for n in h if n.endswith('_nocancel'))
+        # names the bundled table does not know cannot be put into a stream; the 'tables' shard reports them
+        known = set(E.codes().values())
+        twins = sorted(n[:-len('_nocancel')] for n in h if n.endswith('_nocancel') and n in known
+                       and n[:-len('_nocancel')] in known)
         return [('tables',), ('facade', twins)] + [('twins', ch) for ch in chunked(twins, 32)]
 
     def run_shard(self, desc, acc):
@@ -171,6 +223,13 @@ class C17(Check):
             for base in desc[1]:
                 if base not in h:
                     continue
+                for fail_on in ('base', 'nocancel', 'both', 'base:utf8', 'nocancel:utf8', 'both:utf8'):
+                    bad = judge_twin_after_failure(base, fail_on)
+                    if bad == 'skipped':
+                        continue
+                    acc.case(nontrivial=True, transitions=6, outcome=h64((base, fail_on)))
+                    if bad:
+                        acc.violation(f'{bad[0]}@{base}', {'kind': 'after-failure', 'base': base, 'fail_on': fail_on}, bad[1])
                 for order in (0, 1):
                     bad = judge_facade_twins(base, order)
                     acc.case(nontrivial=True, transitions=8, outcome=h64((base, order)))
@@ -195,6 +254,9 @@ class C17(Check):
                                 acc.sample({'twin': base, 'start': [hex(x) for x in s]})
 
     def replay(self, case):
+        if case['kind'] == 'after-failure':
+            bad = judge_twin_after_failure(case['base'], case['fail_on'])
+            return [(f"{bad[0]}@{case['base']}", bad[1])] if bad and bad != 'skipped' else []
         if case['kind'] == 'facade':
             bad = judge_facade_twins(case['base'], case['order'])
             return [(f"{bad[0]}@{case['base']}", bad[1])] if bad else []
